@@ -305,19 +305,73 @@ func (c *Ctx) checkAssetConservation(fn *ssa.Function, key string) {
 	// maps receiving per-asset sums: receiver of Add is lookup(M, key)
 	type src struct{ inputs, mint, outputs bool }
 	maps := map[ssa.Value]*src{}
+	// accumulation sites: Add(lookup(M,k), _, amount), either directly in the rule or inside a helper/closure
+	// whose map and amount are parameters (one level of summarisation; the call site supplies M and amount)
+	lookupMap := func(v ssa.Value) ssa.Value {
+		if e, ok := v.(*ssa.Extract); ok {
+			v = e.Tuple
+		}
+		if lk, ok := v.(*ssa.Lookup); ok {
+			return lk.X
+		}
+		return nil
+	}
+	paramIdx := func(h *ssa.Function, v ssa.Value) int {
+		for i, p := range h.Params {
+			if p == v {
+				return i
+			}
+		}
+		return -1
+	}
+	type site struct {
+		m, amount ssa.Value
+	}
+	var sites []site
+	var updates []*ssa.MapUpdate // stores into the sum maps (checked for freshness below)
+	updateMap := map[*ssa.MapUpdate]ssa.Value{}
 	for _, ci := range allCalls(fn) {
-		if bigMethod(ci.Common()) != "Add" || len(ci.Common().Args) < 3 {
+		cc := ci.Common()
+		if bigMethod(cc) == "Add" && len(cc.Args) >= 3 {
+			if m := lookupMap(cc.Args[0]); m != nil {
+				sites = append(sites, site{m, cc.Args[2]})
+			}
 			continue
 		}
-		lk, ok := ci.Common().Args[0].(*ssa.Lookup)
-		if !ok {
+		h := cc.StaticCallee()
+		if h == nil || h.Blocks == nil || (h.Parent() != fn && h.Pkg != fn.Pkg) {
 			continue
 		}
-		m := lk.X
+		for _, hi := range allCalls(h) {
+			hc := hi.Common()
+			if bigMethod(hc) != "Add" || len(hc.Args) < 3 {
+				continue
+			}
+			m := lookupMap(hc.Args[0])
+			if m == nil {
+				continue
+			}
+			mi, ai := paramIdx(h, m), paramIdx(h, hc.Args[2])
+			if mi < 0 || ai < 0 || mi >= len(cc.Args) || ai >= len(cc.Args) {
+				continue
+			}
+			sites = append(sites, site{cc.Args[mi], cc.Args[ai]})
+			for _, ins := range fnInstrs(h) {
+				if mu, ok := ins.(*ssa.MapUpdate); ok && mu.Map == m {
+					if _, seen := updateMap[mu]; !seen {
+						updates = append(updates, mu)
+					}
+					updateMap[mu] = cc.Args[mi]
+				}
+			}
+		}
+	}
+	for _, st := range sites {
+		m := st.m
 		if maps[m] == nil {
 			maps[m] = &src{}
 		}
-		ad := desc(ci.Common().Args[2])
+		ad := desc(st.amount)
 		switch {
 		case strings.Contains(ad, "AssetMint("):
 			maps[m].mint = true
@@ -326,6 +380,37 @@ func (c *Ctx) checkAssetConservation(fn *ssa.Function, key string) {
 		case strings.Contains(ad, "Transaction.Outputs("):
 			maps[m].outputs = true
 		}
+	}
+	for _, ins := range fnInstrs(fn) {
+		if mu, ok := ins.(*ssa.MapUpdate); ok && maps[mu.Map] != nil {
+			updates = append(updates, mu)
+			updateMap[mu] = mu.Map
+		}
+	}
+	// every accumulator stored in a sum map is a fresh big.Int: Add mutates its receiver, so storing a quantity
+	// owned by an output/UTxO and adding into it rewrites the ledger's own data
+	for _, mu := range updates {
+		if maps[updateMap[mu]] == nil {
+			continue
+		}
+		v := mu.Value
+		fresh := false
+		for i := 0; i < 4 && !fresh; i++ {
+			switch x := v.(type) {
+			case *ssa.Alloc:
+				fresh = strings.HasSuffix(typeStr(x.Type()), "big.Int")
+			case *ssa.Call:
+				switch {
+				case bigMethod(&x.Call) != "" && len(x.Call.Args) > 0:
+					v = x.Call.Args[0] // big.Int methods return their receiver
+					continue
+				case x.Call.StaticCallee() != nil && x.Call.StaticCallee().Name() == "NewInt":
+					fresh = true
+				}
+			}
+			break
+		}
+		c.Check(fresh, "conservation-accumulator-fresh", key+":"+ssaFuncKey(mu.Parent())+":"+shortArg(desc(mu.Value)), mu.Pos(), "the per-asset accumulator stored in the sum map is newly allocated", "the per-asset sum map stores "+shortArg(desc(mu.Value))+", a big.Int it did not allocate, and later adds into it: validating a transaction rewrites asset quantities held by the UTxO/outputs, so a following validation sees inflated amounts")
 	}
 	var mc, mp ssa.Value
 	for m, s := range maps {
